@@ -144,6 +144,12 @@ func execRr(raw json.RawMessage) (res execResult, err error) {
 		return s
 	}
 	var opLits []string
+	type heldList struct {
+		at, s int
+		lit   string
+		docs  []uint64
+	}
+	var held []heldList
 	var obs []string
 	anyProper, anyHint := false, false
 	for _, op := range c.Ops {
@@ -185,6 +191,7 @@ func execRr(raw json.RawMessage) (res execResult, err error) {
 				rlit = "RIErr"
 			default:
 				rlit = fmt.Sprintf("RIDocs %s", nlist(docs))
+				held = append(held, heldList{at: len(opLits), s: op.S, lit: lit, docs: docs})
 				if len(docs) > 0 && len(docs) < nok {
 					anyProper = true
 				}
@@ -217,6 +224,10 @@ func execRr(raw json.RawMessage) (res execResult, err error) {
 		obs = append(obs, op.Op+"->"+rlit)
 		opLits = append(opLits, fmt.Sprintf("(%d%%N, %s, %s)", op.S, lit, rlit))
 	}
+	// the caller keeps the lists Retrieve handed out: what they hold at the END of the history is what is compared
+	for _, h := range held {
+		opLits[h.at] = fmt.Sprintf("(%d%%N, %s, RIDocs %s)", h.s, h.lit, nlist(h.docs))
+	}
 	docsLit := listl(docLits)
 	if c.Bulk > 0 {
 		docsLit = fmt.Sprintf("(bulk_docs %d%%N ++ %s)", c.Bulk, docsLit)
@@ -235,6 +246,46 @@ func execRr(raw json.RawMessage) (res execResult, err error) {
 }
 
 // ---- generators ----
+
+// acRebuildCases: one roaring builder, several BuildIndexer() calls: documents added after a build bring keywords /
+// values the earlier build had not seen (only a new exclude keyword; only a new include keyword; both;
+// default-container values), for several numbers of include and exclude keywords before and after
+func acRebuildCases(add func(in interface{})) {
+	kw := func(inc bool, ss ...string) eExpr {
+		l := make([]TV, len(ss))
+		for i, s := range ss {
+			l[i] = tvStr(s)
+		}
+		return eExpr{F: 1, Inc: inc, V: tvSlice("[]string", l...)}
+	}
+	num := func(inc bool, v int64) eExpr { return eExpr{F: 0, Inc: inc, V: tvSlice("[]int", tvInt("int", v))} }
+	// (also with other numbers of include and exclude keywords before and after: 1/0 -> 1/1, 2/1 -> 2/2, 1/2 -> 2/2)
+	for _, hist := range [][2][]eDoc{
+		{{{ID: 1, Cons: []eConj{{kw(true, "apple")}}}}, {{ID: 3, Cons: []eConj{{kw(false, "banana")}}}}},
+		{{{ID: 1, Cons: []eConj{{kw(true, "apple", "cherry")}}}, {ID: 2, Cons: []eConj{{kw(false, "apple"), num(true, 1)}}}}, {{ID: 3, Cons: []eConj{{kw(false, "banana")}}}}},
+		{{{ID: 1, Cons: []eConj{{kw(true, "apple")}}}, {ID: 2, Cons: []eConj{{kw(false, "apple", "fig"), num(true, 1)}}}}, {{ID: 3, Cons: []eConj{{kw(true, "banana")}}}, {ID: 4, Cons: []eConj{{kw(false, "fig")}}}}},
+	} {
+		c := rCase{Fields: []rField{{F: 0, Cont: "default"}, {F: 1, Cont: "ac_matcher"}}, Docs: append(append([]eDoc{}, hist[0]...), hist[1]...), Rebuild: len(hist[0])}
+		for i, t := range []string{"banana split", "cherry and banana", "apple", "apple banana", "fig", "none"} {
+			c.Ops = append(c.Ops, rOp{S: 0, Op: "reset"}, rOp{S: 0, Op: []string{"retrieve", "docs"}[i%2], A: []eAssign{{F: 1, V: tvStr(t)}, {F: 0, V: tvInt("int", 1)}}}, rOp{S: 0, Op: "raw"})
+		}
+		add(c)
+	}
+	first := []eDoc{{ID: 1, Cons: []eConj{{kw(true, "apple")}}}, {ID: 2, Cons: []eConj{{kw(false, "apple"), num(true, 1)}}}}
+	for _, later := range [][]eDoc{
+		{{ID: 3, Cons: []eConj{{kw(false, "banana")}}}},
+		{{ID: 3, Cons: []eConj{{kw(true, "cherry")}}}},
+		{{ID: 3, Cons: []eConj{{kw(false, "banana")}}}, {ID: 4, Cons: []eConj{{kw(true, "cherry"), num(true, 2)}}}, {ID: 5, Cons: []eConj{{num(false, 1)}}}},
+	} {
+		c := rCase{Fields: []rField{{F: 0, Cont: "default"}, {F: 1, Cont: "ac_matcher"}}, Docs: append(append([]eDoc{}, first...), later...), Rebuild: len(first)}
+		for i, t := range []string{"banana split", "cherry and banana", "apple", "apple banana", "cherry", "none"} {
+			for _, n := range []int64{1, 2} {
+				c.Ops = append(c.Ops, rOp{S: 0, Op: "reset"}, rOp{S: 0, Op: []string{"retrieve", "docs"}[i%2], A: []eAssign{{F: 1, V: tvStr(t)}, {F: 0, V: tvInt("int", n)}}}, rOp{S: 0, Op: "raw"})
+			}
+		}
+		add(c)
+	}
+}
 
 func genRrCase(r *Rand, nFields int, acPct int, hintPct int, nOps int, nScanners int) rCase {
 	var c rCase
@@ -354,32 +405,7 @@ func init() {
 					{S: 3, Op: "retrieve", A: []eAssign{{F: 0, V: tvSlice("[]int", tvInt("int", 2), tvInt("int", 9))}}}, {S: 6, Op: "raw"}, {S: 6, Op: "retrieve", A: two}}
 				add(c)
 			}
-			// one builder, several BuildIndexer() calls: documents added after a build bring keywords / values the earlier
-			// build had not seen (only a new exclude keyword; only a new include keyword; both; default-container values)
-			{
-				kw := func(inc bool, ss ...string) eExpr {
-					l := make([]TV, len(ss))
-					for i, s := range ss {
-						l[i] = tvStr(s)
-					}
-					return eExpr{F: 1, Inc: inc, V: tvSlice("[]string", l...)}
-				}
-				num := func(inc bool, v int64) eExpr { return eExpr{F: 0, Inc: inc, V: tvSlice("[]int", tvInt("int", v))} }
-				first := []eDoc{{ID: 1, Cons: []eConj{{kw(true, "apple")}}}, {ID: 2, Cons: []eConj{{kw(false, "apple"), num(true, 1)}}}}
-				for _, later := range [][]eDoc{
-					{{ID: 3, Cons: []eConj{{kw(false, "banana")}}}},
-					{{ID: 3, Cons: []eConj{{kw(true, "cherry")}}}},
-					{{ID: 3, Cons: []eConj{{kw(false, "banana")}}}, {ID: 4, Cons: []eConj{{kw(true, "cherry"), num(true, 2)}}}, {ID: 5, Cons: []eConj{{num(false, 1)}}}},
-				} {
-					c := rCase{Fields: []rField{{F: 0, Cont: "default"}, {F: 1, Cont: "ac_matcher"}}, Docs: append(append([]eDoc{}, first...), later...), Rebuild: len(first)}
-					for i, t := range []string{"banana split", "cherry and banana", "apple", "apple banana", "cherry", "none"} {
-						for _, n := range []int64{1, 2} {
-							c.Ops = append(c.Ops, rOp{S: 0, Op: "reset"}, rOp{S: 0, Op: []string{"retrieve", "docs"}[i%2], A: []eAssign{{F: 1, V: tvStr(t)}, {F: 0, V: tvInt("int", n)}}}, rOp{S: 0, Op: "raw"})
-						}
-					}
-					add(c)
-				}
-			}
+			acRebuildCases(add)
 			// value identity is 64 bits wide: values that agree in their low 32 bits (number parser: differing by a
 			// multiple of 2^32; -1 vs 4294967295) must keep separate posting lists, as include and as exclude
 			{
